@@ -45,14 +45,14 @@ ASSUMPTIONS = [
 BUDGET_S = {'quick': 105, 'thorough': 1500}
 GRACE_S = 60
 
-SYS_PER = {'quick': 3, 'thorough': 40}          # targeted cases per (operation, environment)
-RAND = {'quick': 2000, 'thorough': 36000}       # random compositions
+SYS_PER = {'quick': 2, 'thorough': 40}          # targeted cases per (operation, environment)
+RAND = {'quick': 1400, 'thorough': 36000}       # random compositions
 REJECT_PER = {'quick': 12, 'thorough': 120}     # rejection cases per shape-sensitive operation
 HOSTILE_PER = {'quick': 3, 'thorough': 20}      # per (hostile corner, environment)
 HELPER_UNITS = {'quick': 4, 'thorough': 30}     # x100 direct calls of function.broadcast_shapes / broadcast_arrays / typecast_arrays
 CHUNK = 40
 # evaluation on product samples is 5-10x more expensive (nested point loops in the generated code): fewer cases there
-ENV_WEIGHT = {'const': 1.5, 'plain': 1., 'mixed': 1., 'boundary': 1., 'prod2': .75, 'prod3': .5}
+ENV_WEIGHT = {'const': 1.5, 'plain': 1., 'mixed': 1., 'boundary': 1., 'prod2': .75, 'prod3': .5}     # quick: 3/2/2/2/2/1 cases per operation
 RAND_ENVS = ['const', 'plain', 'mixed', 'boundary', 'prod2', 'prod3', 'const', 'plain', 'boundary', 'prod2', 'mixed', 'plain']
 
 FINDINGS = {
@@ -73,6 +73,8 @@ FINDINGS = {
                         '(evaluable.Determinant/Inverse demand a float operand; no typecast)', True),
     'C07-optimized-mode-only': ('evaluation fails (or differs) only with the optimisation pass of evaluable.compile, e.g. numpy.choose(k, [scalar, basis]) on a '
                                 'product sample: ValueError in the generated Assemble statement; the unoptimised evaluation equals NumPy (root cause in the scope of C02)', True),
+    'C07-empty-result-on-product-sample': ('a function array with a zero-length axis (a[2:1]) evaluated on a product sample (sx*sy) comes back with 0 points: '
+                                           'shape (0, 0, ...) instead of (npoints, 0, ...); _Mul._bind reshapes with -1', True),
     'C07-cross-int-float': ('numpy.cross of two integer function arrays has dtype float (float Levi-Civita symbol); NumPy gives int', True),
 }
 
@@ -121,6 +123,8 @@ def classify(prog, monitor, nodeid):
     op, params = s['op'], s['params']
     if monitor.endswith('(optimised code only)'):
         return 'C07-optimized-mode-only'
+    if monitor == 'evaluated shape' and prog['env'] in ('prod2', 'prod3') and 0 in prog.get('_shapes', {}).get(str(nodeid), ()):
+        return 'C07-empty-result-on-product-sample'
     if prog.get('mode') == 'reject':
         pert = prog.get('perturbed') or {}
         shapes = [_shape_of(prog, byid[a]) for a in s['args']]
@@ -135,7 +139,8 @@ def classify(prog, monitor, nodeid):
         base = byid[s['args'][0]]
         if monitor in ('shape', 'evaluation failed') and _has_oob_slice(params['items'], _shape_of(prog, base)):
             return 'C07-slice-bounds-not-clamped'
-        narr = sum(1 for it in params['items'] if isinstance(it, dict) and (('a' in it and len(it['a']['s']) >= 1) or 'r' in it))
+        # more than one index ARRAY (ndim >= 1; constant or function valued) in one __getitem__
+        narr = sum(1 for it in params['items'] if isinstance(it, dict) and (('a' in it and len(it['a']['s']) >= 1) or ('r' in it and len(_shape_of(prog, byid[s['args'][it['r']]])) >= 1)))
         if monitor in ('shape', 'value') and narr >= 2:
             return 'C07-multi-index-array-outer'
     if op == 'vdot' and monitor == 'value' and _shape_of(prog, byid[s['args'][0]]) != _shape_of(prog, byid[s['args'][1]]):
@@ -585,7 +590,25 @@ def repro_optimized():
     return bool(numpy.abs(r - expect).max() > 1e-12), 'optimised evaluation of numpy.choose(i%2, [-.7, basisY]) on a product sample'
 
 
+def repro_empty_product():
+    numpy, function = _setup()
+    from nutils import mesh
+    X, gx = mesh.rectilinear([numpy.linspace(0, 1, 3)], space='X')
+    Y, gy = mesh.rectilinear([numpy.linspace(1, 2, 3)], space='Y')
+    smp = X.sample('gauss', 2) * Y.sample('gauss', 2)
+    a = function.Argument('a', (3, 2))
+    f = numpy.take(a, numpy.array([], dtype=int), 0)
+    if tuple(f.shape) != (0, 2):
+        return None, f'could not build an empty function array: shape {f.shape}'
+    try:
+        r = smp.eval(f, arguments=dict(a=numpy.zeros((3, 2))))
+    except Exception as e:
+        return True, f'(sx*sy).eval(empty (0,2) function array) raises {type(e).__name__}: {str(e)[:60]}'
+    return r.shape != (smp.npoints, 0, 2), f'(sx*sy).eval(empty (0,2) function array).shape == {r.shape}, expected {(smp.npoints, 0, 2)}'
+
+
 REPRODUCERS = {
+    'C07-empty-result-on-product-sample': repro_empty_product,
     'C07-optimized-mode-only': repro_optimized,
     'C07-det-inv-int': repro_det_int,
     'C07-cross-int-float': repro_cross_int,
@@ -669,7 +692,7 @@ def finalize(m, tier, seed):
     inc = None
     if c.get('harness_errors'):
         inc = f"{c['harness_errors']} unit(s) crashed inside the harness: {m.notes[:1]}"
-    elif cov['evaluations'] < .6 * expected:
+    elif cov['evaluations'] < .5 * expected:
         inc = f"only {cov['evaluations']} of ~{expected} cases ran before the deadline"
     elif len(uncovered) > .15 * len(handled):
         inc = f'{len(uncovered)} of {len(handled)} handled functions were never verified: {uncovered[:12]}'
